@@ -292,6 +292,32 @@ loop:
 	case <-time.After(30 * time.Second):
 		report("ProcessPacket(router advertisement) after Close did not return within 30 s")
 	}
+	// the application's goroutines notice a Close late as well: every API call once more on the closed handlers
+	// (a call may refuse, it must not panic or block); hunts started here are stopped again
+	lateDone := make(chan struct{})
+	go func() {
+		defer close(lateDone)
+		for i := 0; i < 3; i++ {
+			mac, ip := net.HardwareAddr(clientMAC(8+i)), netip.AddrFrom4(*(*[4]byte)(clientIP(8 + i)))
+			lla := netip.AddrFrom16(*(*[16]byte)(clientLLA(8 + i)))
+			guard("arp StartHunt after Close", func() { ah.StartHunt(packet.Addr{MAC: mac, IP: ip}) })
+			guard("arp IsHunting after Close", func() { ah.IsHunting(ip) })
+			guard("arp StopHunt after Close", func() { ah.StopHunt(packet.Addr{MAC: mac, IP: ip}) })
+			guard("arp PrintTable after Close", func() { ah.PrintTable() })
+			guard("icmp6 StartHunt after Close", func() { h6.StartHunt(packet.Addr{MAC: mac, IP: lla}) })
+			guard("icmp6 StopHunt after Close", func() { h6.StopHunt(packet.Addr{MAC: mac, IP: lla}) })
+			guard("icmp6 FindRouter after Close", func() { h6.FindRouter(lla) })
+			guard("icmp6 PrintTable after Close", func() { h6.PrintTable() })
+			guard("arp Close twice", func() { ah.Close() })
+			guard("icmp6 Close twice", func() { h6.Close() })
+		}
+	}()
+	select {
+	case <-lateDone:
+	case <-time.After(30 * time.Second):
+		buf := make([]byte, 1<<16)
+		report("an API call on a closed handler did not return within 30 s\n" + string(buf[:runtime.Stack(buf, true)]))
+	}
 	guard("close session", func() {
 		s.VerifStop() // Close() without the second close of closeChan (sess.New stopped the timers)
 	})
